@@ -1279,3 +1279,229 @@ proof fn theorem_written_condition(l: EList, env: Env)
     assert(ops.subrange(0, ops.len() as int) =~= ops);
     lemma_tree_list(ops, env, 0, l, 8);
 }
+
+// =========================================================================================
+// A6: the COMPILER (parser/src/cfg/switch.rs::parse_switch_case_bool), as far as it can be cut:
+// the prologue (size / depth checks) and the operator arm (placeholder, recursion over the
+// operands, back-patching of the absolute end index) are FRAGMENTS of the real function, each
+// wrapped in a synthetic signature; the leaf arms (string matching, closures, error macros) and
+// the keyword dispatch closure stay outside.  The recursive call is a stub carrying the contract
+// `compiles(..)` below - the induction hypothesis - and the operator arm is proved to satisfy that
+// same contract: the induction step of "parse_switch_case_bool emits enc(tree(e), base)".
+// =========================================================================================
+//@ raw
+// the parser's s-expression and state: opaque here
+pub struct SExpr { verif_opaque: u8 }
+pub struct ParserState { verif_opaque: u8 }
+pub struct VerifError { verif_opaque: u8 }
+type Result<T> = core::result::Result<T, VerifError>;
+// R13: bail_expr!(expr, "...") -> return Err(verif_bail()); the formatted message is dropped
+#[verifier::external_body]
+fn verif_bail() -> VerifError { unimplemented!() }
+// R14: `l.iter().skip(n)` -> `verif_skip(l, n).iter()`; ASSUMED: skip(n) yields the elements from n on
+#[verifier::external_body]
+fn verif_skip<T>(l: &[T], n: usize) -> (r: &[T])
+    ensures r@ == (if n <= l@.len() { l@.subrange(n as int, l@.len() as int) } else { Seq::<T>::empty() }),
+{ unimplemented!() }
+
+/// the WRITTEN condition denoted by an s-expression.  Definitional: an atom / a leaf form denotes
+/// its leaf; a list (kw x1 .. xn) with kw in {or, and, not} denotes Op(kw, [tree(x1), .., tree(xn)]).
+uninterp spec fn tree(e: SExpr) -> Expr;
+spec fn trees(l: Seq<SExpr>) -> EList
+    decreases l.len(),
+{
+    if l.len() == 0 { EList::Nil } else { EList::Cons(Box::new(tree(l[0])), Box::new(trees(l.drop_first()))) }
+}
+/// ewf without "every operator has an operand": what the compiler guarantees by itself
+/// (the parser accepts `(or)`; the property excludes it)
+spec fn pwf(e: Expr, d: int) -> bool
+    decreases e,
+{
+    match e {
+        Expr::L1(w) => word_ok(w.0, None) && !is_two_word(w.0) && !is_boolop_word(w.0),
+        Expr::L2(a, _) => is_two_word(a.0),
+        Expr::Op(_, l) => d > 0 && plwf(*l, d - 1),
+    }
+}
+spec fn plwf(l: EList, d: int) -> bool
+    decreases l,
+{
+    match l { EList::Nil => true, EList::Cons(e, r) => pwf(*e, d) && plwf(*r, d) }
+}
+spec fn has_operands(e: Expr) -> bool
+    decreases e,
+{
+    match e { Expr::Op(_, l) => !(*l is Nil) && l_has_operands(*l), _ => true }
+}
+spec fn l_has_operands(l: EList) -> bool
+    decreases l,
+{
+    match l { EList::Nil => true, EList::Cons(e, r) => has_operands(*e) && l_has_operands(*r) }
+}
+proof fn lemma_pwf_ewf(e: Expr, d: int)
+    requires pwf(e, d), has_operands(e),
+    ensures ewf(e, d),
+    decreases e,
+{
+    match e { Expr::Op(_, l) => { lemma_plwf_lwf(*l, d - 1); } _ => {} }
+}
+proof fn lemma_plwf_lwf(l: EList, d: int)
+    requires plwf(l, d), l_has_operands(l),
+    ensures lwf(l, d),
+    decreases l,
+{
+    match l { EList::Cons(e, r) => { lemma_pwf_ewf(*e, d); lemma_plwf_lwf(*r, d); } _ => {} }
+}
+
+/// THE CONTRACT of parse_switch_case_bool: on success exactly the encoding of the written
+/// expression is appended, with absolute end indices, and its nesting stays within the
+/// evaluator's stack (top-level expressions are compiled at depth 1)
+spec fn compiles(e: SExpr, depth: u8, before: Seq<OpCode>, after: Seq<OpCode>) -> bool {
+    &&& after == before + enc(tree(e), before.len() as int)
+    &&& pwf(tree(e), 9 - depth as int)
+}
+// the recursive call: INDUCTION HYPOTHESIS (also: what the leaf arms are ASSUMED to satisfy)
+#[verifier::external_body]
+fn parse_switch_case_bool(depth: u8, op_expr: &SExpr, ops: &mut Vec<OpCode>, s: &ParserState) -> (r: Result<()>)
+    ensures r is Ok ==> compiles(*op_expr, depth, old(ops)@, final(ops)@),
+{ unimplemented!() }
+
+proof fn lemma_lenc_snoc(l: Seq<SExpr>, b: int)
+    requires l.len() >= 1,
+    ensures lenc(trees(l), b) == lenc(trees(l.drop_last()), b) + enc(tree(l.last()), b + lsize(trees(l.drop_last()))),
+            lsize(trees(l)) == lsize(trees(l.drop_last())) + esize(tree(l.last())),
+    decreases l.len(),
+{
+    let e0 = tree(l[0]);
+    let t = l.drop_first();
+    assert(trees(l) == EList::Cons(Box::new(e0), Box::new(trees(t))));
+    assert(lenc(trees(l), b) == enc(e0, b) + lenc(trees(t), b + esize(e0)));
+    assert(lsize(trees(l)) == esize(e0) + lsize(trees(t)));
+    if l.len() == 1 {
+        assert(l.drop_last() =~= Seq::<SExpr>::empty());
+        assert(t =~= Seq::<SExpr>::empty());
+        assert(trees(t) == EList::Nil);
+        assert(trees(l.drop_last()) == EList::Nil);
+        assert(lenc(EList::Nil, b + esize(e0)) =~= Seq::<OpCode>::empty());
+        assert(lenc(EList::Nil, b) =~= Seq::<OpCode>::empty());
+        assert(lenc(trees(l), b) =~= enc(e0, b));
+        assert(lenc(trees(l), b) =~= lenc(trees(l.drop_last()), b) + enc(tree(l.last()), b + lsize(trees(l.drop_last()))));
+    } else {
+        lemma_lenc_snoc(t, b + esize(e0));
+        let dl = l.drop_last();
+        assert(t.drop_last() =~= dl.drop_first());
+        assert(dl[0] == l[0]);
+        assert(t.last() == l.last());
+        assert(trees(dl) == EList::Cons(Box::new(e0), Box::new(trees(dl.drop_first()))));
+        assert(lenc(trees(dl), b) == enc(e0, b) + lenc(trees(dl.drop_first()), b + esize(e0)));
+        assert(lsize(trees(dl)) == esize(e0) + lsize(trees(dl.drop_first())));
+        assert(lenc(trees(l), b) =~= lenc(trees(dl), b) + enc(tree(l.last()), b + lsize(trees(dl))));
+    }
+}
+proof fn lemma_plwf_snoc(l: Seq<SExpr>, d: int)
+    requires l.len() >= 1, plwf(trees(l.drop_last()), d), pwf(tree(l.last()), d),
+    ensures plwf(trees(l), d),
+    decreases l.len(),
+{
+    let t = l.drop_first();
+    let dl = l.drop_last();
+    assert(trees(l) == EList::Cons(Box::new(tree(l[0])), Box::new(trees(t))));
+    if l.len() == 1 {
+        assert(t =~= Seq::<SExpr>::empty());
+        assert(trees(t) == EList::Nil);
+    } else {
+        assert(trees(dl) == EList::Cons(Box::new(tree(dl[0])), Box::new(trees(dl.drop_first()))));
+        assert(dl[0] == l[0]);
+        assert(t.drop_last() =~= dl.drop_first());
+        assert(t.last() == l.last());
+        lemma_plwf_snoc(t, d);
+    }
+}
+
+//@ item parser/src/cfg/switch.rs enum AllowedListOps
+//@ raw
+/// the operator a keyword variant stands for
+spec fn opk(op: AllowedListOps) -> BooleanOperator {
+    match op { AllowedListOps::Or => Or, AllowedListOps::And => And, _ => Not }
+}
+
+//@ fragment parser/src/cfg/switch.rs fn parse_switch_case_bool head-until `if let Some(a) = op_expr.atom(s.vars()) {` as compile_prologue
+//@@ header
+fn compile_prologue(depth: u8, op_expr: &SExpr, ops: &mut Vec<OpCode>, s: &ParserState) -> Result<()>
+//@@ tail
+    Ok(())
+//@@ macro-stmt R13 bail_expr => `return Err(verif_bail());`
+//@@ ret r
+//@@ spec
+    ensures
+        final(ops)@ == old(ops)@,
+        // only expressions that start inside the 12-bit index space and within the evaluator's
+        // stack depth get compiled at all
+        r is Ok ==> old(ops)@.len() <= 0x0FFF && depth <= 8,
+
+//@ fragment parser/src/cfg/switch.rs fn parse_switch_case_bool block-after `AllowedListOps::Or | AllowedListOps::And | AllowedListOps::Not => {` as compile_operator_arm
+//@@ header
+fn compile_operator_arm(depth: u8, op_expr: &SExpr, ops: &mut Vec<OpCode>, s: &ParserState, l: &[SExpr], op: AllowedListOps) -> Result<()>
+//@@ macro-stmt R13 bail_expr => `return Err(verif_bail());`
+//@@ resub R14 1 /for op in l\.iter\(\)\.skip\((\d+)\)/ => `for op in it: verif_skip(l, \1).iter()`
+//@@ resub R15 1 /ops\[([^\]]*)\] = (OpCode::new_bool\([^;]*\));/ => `ops.set(\1, \2);`
+//@@ ret r
+//@@ spec
+    requires
+        // established by the prologue fragment
+        old(ops)@.len() <= 0x0FFF, depth <= 8,
+        // established by the dispatch: a non-empty list whose head is one of the three keywords
+        l@.len() >= 1,
+        op is Or || op is And || op is Not,
+        // definition of the written condition of such a list
+        tree(*op_expr) == Expr::Op(opk(op), Box::new(trees(l@.subrange(1, l@.len() as int)))),
+    ensures
+        r is Ok ==> compiles(*op_expr, depth, old(ops)@, final(ops)@),
+        r is Ok ==> final(ops)@.len() <= 0x0FFF,
+//@@ after-re 1 /ops\.push\(OpCode::new_bool\([^;]*\)\);/
+    let ghost base = placeholder_index as int;
+    let ghost ops0 = old(ops)@;
+    let ghost rest = l@.subrange(1, l@.len() as int);
+//@@ loop 1
+        invariant
+            it.seq().len() == rest.len(),
+            forall|k: int| 0 <= k < rest.len() ==> *it.seq()[k] == rest[k],
+            ops@.len() == base + 1 + lsize(trees(rest.subrange(0, it.index@ as int))),
+            ops@.subrange(0, base) == ops0,
+            ops@.subrange(base + 1, ops@.len() as int) == lenc(trees(rest.subrange(0, it.index@ as int)), base + 1),
+            plwf(trees(rest.subrange(0, it.index@ as int)), 8 - depth as int),
+            depth <= 8, base == ops0.len(), base <= 0x0FFF,
+//@@ before-re 1 /parse_switch_case_bool\([^;]*\)\?;/
+    let ghost before = ops@;
+//@@ after-re 1 /parse_switch_case_bool\([^;]*\)\?;/
+    proof {
+        let pre = rest.subrange(0, it.index@ as int + 1);
+        lemma_lenc_snoc(pre, base + 1);
+        assert(pre.drop_last() =~= rest.subrange(0, it.index@ as int));
+        assert(pre.last() == rest[it.index@ as int]);
+        lemma_plwf_snoc(pre, 8 - depth as int);
+        lemma_sizes(tree(*op), before.len() as int);
+        assert(ops@.subrange(0, base) =~= ops0);
+        assert(ops@.subrange(base + 1, ops@.len() as int) =~= lenc(trees(pre), base + 1));
+    }
+//@@ before 1 `Ok(())`
+    proof {
+        assert(rest.subrange(0, rest.len() as int) =~= rest);
+        let e = Expr::Op(op, Box::new(trees(rest)));
+        assert(ops@ =~= ops0 + enc(e, base));
+    }
+
+// the keyword dispatch (a closure over string literals, outside Verus): its table is READ from
+// the match arms `"or" => Some(AllowedListOps::Or)` .. and the obligation is that each of the three
+// operator names denotes its own operator
+//@ strtable-variants parser/src/cfg/switch.rs parse_switch_case_bool parser/src/cfg/switch.rs AllowedListOps or|and|not kw_table
+//@ raw
+proof fn a6_operator_names_denote_their_operator()
+    ensures
+        // names sorted: and, not, or
+        kw_table().len() == 3,
+        opk(kw_table()[0]) == And && kw_table()[0] is And,
+        opk(kw_table()[1]) == Not && kw_table()[1] is Not,
+        opk(kw_table()[2]) == Or && kw_table()[2] is Or,
+{
+}
